@@ -381,7 +381,11 @@ pub fn c04(ctx: &Ctx) -> Report {
             let out = compare(d, rep, &s);
             judge_history(d, rep, &c, &s, &out);
             if i % 8 == 0 {
-                boxed_glue(rep, &c, &s.ops);
+                // a panic inside the crate is the business of the judged run above, not of this glue comparison
+                let mut glue = Report::new("C04", "");
+                if guarded(|| boxed_glue(&mut glue, &c, &s.ops)).is_ok() {
+                    rep.merge(glue);
+                }
             }
             if i < 2 && t == 0 {
                 rep.sample(J::obj(vec![("cfg", J::s(&c.cfg.describe())), ("entries", J::s(&entries_str(&c.es))), ("ops", J::s(&s.ops.iter().map(|o| o.text()).collect::<Vec<_>>().join(";")))]));
